@@ -109,9 +109,10 @@ Section OneModule.
     destruct (md_inherit m) as [p|].
     - destruct (lookup p arch) as [[parent pg]|] eqn:Ep; cbn [bind] in H; [|discriminate].
       destruct (Harch _ _ _ Ep) as [_ Hden]. rewrite Hden, Eg, Hz. cbn [orb].
+      destruct (fx && has_dup_field _); [discriminate|].
       destruct (transform_connections _ _ _ _ _) as [cs| | |]; cbn [bind] in H; try discriminate.
       injection H as <- <-. split; reflexivity.
-    - cbn [bind] in H. rewrite Eg, Hz. cbn [orb n_gates n_subs n_conns].
+    - cbn [bind] in H. destruct (fx && has_dup_field _); [discriminate|]. rewrite Eg, Hz. cbn [orb n_gates n_subs n_conns].
       replace (set_extend (set_extend [] (md_gates m)) []) with (set_extend [] (md_gates m)) by reflexivity.
       rewrite app_nil_r.
       destruct (transform_connections _ _ _ _ _) as [cs| | |]; cbn [bind] in H; try discriminate.
